@@ -79,7 +79,9 @@ func propC20(c *Ctx) {
 	c.Rule("C20.R1", func() {
 		fn := c.Method("opchild/ante", "MempoolFeeChecker", "CheckTxFeeWithMinGasPrices")
 		o := c.Ob("C20.R1", "CheckTxFeeWithMinGasPrices: reject iff CheckTx and floor non-zero and no fee denom covers the requirement")
-		po := PO{Params: []string{"mfd", "ctx", "tx"}, NoInline: []string{"CombinedMinGasPrices", "computeRequiredFees"}, Pure: []string{"CombinedMinGasPrices", "computeRequiredFees"}}
+		// the required-fee computation is inlined (it may or may not be a function of its own)
+		po := PO{Params: []string{"mfd", "ctx", "tx"}, Visits: 3, NoInline: []string{"CombinedMinGasPrices"}, Pure: []string{"CombinedMinGasPrices"}}
+		o3 := c.Ob("C20.R1", "computeRequiredFees: per denom NewCoin(denom, RoundInt(Ceil(price * gas)))")
 		nRej, nOK := 0, 0
 		feeTx := "tx.(sdk.FeeTx).0"
 		for _, p := range c.Paths(fn, po) {
@@ -124,9 +126,9 @@ func propC20(c *Ctx) {
 				}
 			}
 			if req != nil && floor != nil {
-				want := "opchild/ante.computeRequiredFees((sdk.FeeTx).GetGas(" + feeTx + "), " + floor.Key() + ")"
-				if req.Key() != want {
-					o.Fail(c.W.Pos(fn.Pos()), "required fee is "+trunc(req.Key(), 200)+", want "+trunc(want, 200), c.Dump(p, -1))
+				o3.Sites++
+				if why := requiredFeeShape(p, req, floor.Key(), "(sdk.FeeTx).GetGas("+feeTx+")"); why != "" {
+					o3.Fail(c.W.Pos(fn.Pos()), why, c.Dump(p, -1))
 				}
 			}
 			org := ""
@@ -195,30 +197,8 @@ func propC20(c *Ctx) {
 			o2.Fail(c.W.Pos(cm.Pos()), "no iteration examined", nil)
 		}
 
-		cr := c.Func("opchild/ante", "computeRequiredFees")
-		o3 := c.Ob("C20.R1", "computeRequiredFees: per denom NewCoin(denom, RoundInt(Ceil(price * gas)))")
-		for _, p := range c.Paths(cr, PO{Params: []string{"gas", "prices"}, Visits: 3}) {
-			o3.Paths++
-			o3.Facts += p.NFacts()
-			for i := range p.Events {
-				ev := &p.Events[i]
-				if ev.Kind != EvStore {
-					continue
-				}
-				o3.Sites++
-				pl := ev.Place
-				if pl.Op != "index" {
-					continue
-				}
-				idx := pl.Args[1].Key()
-				want := "sdk.NewCoin(prices[" + idx + "].Denom, (sdkmath.LegacyDec).RoundInt((sdkmath.LegacyDec).Ceil((sdkmath.LegacyDec).MulInt(prices[" + idx + "].Amount, sdkmath.NewIntFromUint64(gas)))))"
-				if ev.Val.Key() != want {
-					o3.Fail(c.evPos(ev), "required fee element is "+trunc(ev.Val.Key(), 220), c.Dump(p, i))
-				}
-			}
-		}
 		if o3.Sites == 0 {
-			o3.Fail(c.W.Pos(cr.Pos()), "no required-fee element computed", nil)
+			o3.Fail(c.W.Pos(fn.Pos()), "no path compares the fee with a required fee", nil)
 		}
 	})
 
@@ -451,4 +431,61 @@ func propC20(c *Ctx) {
 			o.Fail(c.W.Pos(fn.Pos()), fmt.Sprintf("the filter is not activated by CheckTx alone [%v] and by ReCheckTx alone [%v] (and/or slip in the mode gate)", chkAlone, rechkAlone), nil)
 		}
 	})
+}
+
+// requiredFeeShape: req is Sort(list) where list has one element per floor element visited on
+// the path, element i being NewCoin(floor[i].Denom, RoundInt(Ceil(MulInt(floor[i].Amount, NewIntFromUint64(gas))))).
+// Returns "" when the shape holds, else what is wrong.
+func requiredFeeShape(p *Path, req *Term, floor, gas string) string {
+	r := strip(req)
+	if r.Op != "call" || !strings.HasSuffix(r.Name, "(sdk.Coins).Sort") || len(r.Args) != 1 {
+		return "required fee is " + trunc(r.Key(), 200) + ", want the sorted per-denom list"
+	}
+	cur := strip(r.Args[0])
+	writes := map[int64]*Term{}
+	for {
+		switch {
+		case cur.Op == "updidx":
+			i, ok := cur.Args[1].Int()
+			if !ok {
+				return "required fee list written at symbolic index " + cur.Args[1].Key()
+			}
+			if _, dup := writes[i]; !dup {
+				writes[i] = cur.Args[2]
+			}
+			cur = strip(cur.Args[0])
+			continue
+		case cur.Op == "filled" && len(cur.Args) == 2:
+			cur = strip(cur.Args[1])
+			continue
+		}
+		break
+	}
+	if !(cur.Op == "zero" || cur.Op == "make" || cur.IsNil()) {
+		return "required fee list is built on " + trunc(cur.Key(), 120)
+	}
+	if cur.Op == "make" && (len(cur.Args) == 0 || cur.Args[0].Key() != "builtin.len("+floor+")") {
+		return "required fee list has length " + trunc(cur.Key(), 120) + ", want len(floor)"
+	}
+	n := int64(0)
+	for p.HasFact(len(p.Events), func(a *Term, pol bool) bool {
+		return pol && a.Op == "bin" && a.Name == "<" && a.Args[0].Key() == fmt.Sprint(n) && a.Args[1].Key() == "builtin.len("+floor+")"
+	}) {
+		n++
+	}
+	if int64(len(writes)) != n {
+		return fmt.Sprintf("%d floor element(s) visited but %d required-fee element(s) written", n, len(writes))
+	}
+	for i := int64(0); i < n; i++ {
+		el := fmt.Sprintf("%s[%d]", floor, i)
+		want := "sdk.NewCoin(" + el + ".Denom, (sdkmath.LegacyDec).RoundInt((sdkmath.LegacyDec).Ceil((sdkmath.LegacyDec).MulInt(" + el + ".Amount, sdkmath.NewIntFromUint64(" + gas + ")))))"
+		if w := writes[i]; w == nil || w.Key() != want {
+			got := "nothing"
+			if w != nil {
+				got = trunc(w.Key(), 240)
+			}
+			return fmt.Sprintf("required fee element %d is %s, want %s", i, got, trunc(want, 240))
+		}
+	}
+	return ""
 }
